@@ -113,6 +113,13 @@ Definition step_op (st : rstate) (op : list tok) : rstate * list tok :=
         let c' := mkC (c_h2 c) (zb iw) (zb ew) (c_ftimer c) (c_btimer c) (c_closed c) (c_bparked c) (c_bdirty c) in
         (mkr s' c', st_toks s' c')
       | _ => bad end
+    else if name =? "setline" then
+      (* the status line of the response buffer: 100 / 103 / 101 are the interim ones the model tells apart *)
+      match args with
+      | [TN code] =>
+        let i := if (code =? 100)%Z then I100 else if (code =? 103)%Z then I103 else if (code =? 101)%Z then I101 else NoInterim in
+        (mkr (set_interim s i) c, [TN code])
+      | _ => bad end
     else if name =? "esd" then (st, action_toks (esd T c s))
     else if name =? "answer" then
       match args with
